@@ -192,7 +192,10 @@ class ComponentIDComboHelper(ComboHelper):
 
         self._data_collection = data_collection
         if data_collection is None:
-            self.hub = None
+            # If a single dataset was given, we use its hub (if any) so that
+            # the choices are updated when its components change, since
+            # append_data (which normally sets the hub) is then never called.
+            self.hub = getattr(data, 'hub', None)
         else:
             if data_collection.hub is None:
                 raise ValueError("Hub on data collection is not set")
